@@ -2752,6 +2752,17 @@ _MISSING = object()
 _HOF = (sorted, min, max, map, filter, _functools.reduce, _functools.partial)
 
 
+# eagerly evaluated generator expressions: still a list for the evaluator, but not a value iter() may be applied to
+# (iter(generator) is the generator itself, iter(list) a fresh iterator)
+_GenList = type("generator", (list,), {})
+_ITER_EXACT = (list, tuple, dict, str, bytes, bytearray, memoryview, range, set, frozenset,
+               int, float, bool, type(None), type(iter([])), type(iter(())))
+
+
+_ABC_NAMES = ("Iterable", "Iterator", "Sequence", "MutableSequence", "Mapping", "MutableMapping", "Sized", "Container",
+              "Collection", "Hashable", "Set")
+
+
 def _no_iter(v):
     raise MachUnknown("iteration protocol on %r" % (v,))
 
@@ -2811,8 +2822,10 @@ class Mach:
                                                                      "zip_longest", "takewhile", "dropwhile", "starmap")})
         if name == "collections":
             import collections as _c
+            import collections.abc as _cabc
             return PModule("collections", {"OrderedDict": _c.OrderedDict, "namedtuple": POpaque("collections.namedtuple"),
-                                           "deque": POpaque("collections.deque"), "defaultdict": POpaque("collections.defaultdict")})
+                                           "deque": POpaque("collections.deque"), "defaultdict": POpaque("collections.defaultdict"),
+                                           "abc": PModule("collections.abc", {k: getattr(_cabc, k) for k in _ABC_NAMES if hasattr(_cabc, k)})})
         return PModule(name, opaque=True)
 
     def module(self, name):
@@ -3114,6 +3127,13 @@ class Mach:
                 o, mm = args[0].cls.find(nm)
                 if isinstance(mm, PFunc):
                     return self.call_func(mm, [args[0]], {})
+        if f is iter and len(args) == 1 and not kw and type(args[0]) in _ITER_EXACT:
+            # exact for the host's own containers / scalars / iterators: iter() creates a fresh iterator over a
+            # container (nothing is consumed), returns an iterator itself, raises TypeError for a non-iterable
+            try:
+                return iter(args[0])
+            except TypeError as e:
+                raise PyRaise(e)
         if f in (iter, next):
             raise MachUnknown("explicit iterator protocol (%s)" % f.__name__)
         if f in (list, tuple, set, frozenset, sorted, sum, min, max, any, all, enumerate, reversed, dict, zip, map, filter) and args:
@@ -3280,6 +3300,10 @@ class Mach:
                     if xc is not None and xc.is_sub(c):
                         return True
                 elif isinstance(c, type):
+                    if getattr(c, "__module__", "") == "collections.abc" and (
+                            isinstance(x, _INTERP) or (isinstance(x, _GenList) and c.__name__ != "Iterable")):
+                        # structural ABCs: decided by the host only for the host's own values
+                        raise MachUnknown("%s of an evaluated object against collections.abc.%s" % (name, c.__name__))
                     if name == "isinstance":
                         if isinstance(x, PInst):
                             if c is object or c in x.cls.mro or any(isinstance(b, type) and issubclass(b, c) for b in x.cls.mro):
@@ -3576,16 +3600,23 @@ class Mach:
         for a in st.names:
             m = self.module(a.name.split(".")[0])
             if "." in a.name and not m.opaque:
-                raise MachUnknown("dotted import %s" % a.name)
+                self.submodule(m, a.name)
             self.bind(a.asname or a.name.split(".")[0], m if not (a.asname and "." in a.name) else POpaque(a.name), env)
         return None
+
+    def submodule(self, m, dotted):
+        for part in dotted.split(".")[1:]:
+            m = m.ns.get(part) if isinstance(m, PModule) and not m.opaque else None
+            if not isinstance(m, PModule):
+                raise MachUnknown("dotted import %s" % dotted)
+        return m
 
     def ex_ImportFrom(self, st, env, mod):
         if st.level:
             raise MachUnknown("relative import")
         m = self.module(st.module.split(".")[0])
         if "." in st.module and not m.opaque:
-            raise MachUnknown("dotted import %s" % st.module)
+            m = self.submodule(m, st.module)
         for a in st.names:
             if a.name == "*":
                 if m.opaque:
@@ -4049,7 +4080,7 @@ class Mach:
         return out
 
     def ev_GeneratorExp(self, n, env, mod):
-        return self.ev_ListComp(n, env, mod)       # evaluated eagerly (the evaluated code is pure at these places)
+        return _GenList(self.ev_ListComp(n, env, mod))       # evaluated eagerly (the evaluated code is pure at these places)
 
     def ev_SetComp(self, n, env, mod):
         try:
@@ -5313,7 +5344,9 @@ def w_seq_closure(lab, fams):
     sum of the fixed field lengths of its definition because an optional field is absent - stand-alone, as the
     flexible last field of an envelope and as a field whose length comes from a callback (followed by a further
     field).  Truncated encodings are compared with the reference as well (a cut at an item boundary is a shorter
-    sequence, any other cut is rejected with DecodeError)."""
+    sequence, any other cut is rejected with DecodeError).  The in-range values of a sequence field are the iterables
+    of item dicts: besides lists (what decoding returns) the same items given as a tuple must encode to the same octets;
+    refusing other kinds of value (a single dict, str, bytes-like, a number) is outside this clause."""
     for item, nflag, mk in _seq_item_defs():
         fam = Family("C16.R8", "Sequence", "sequence of %r, items of different lengths in one sequence (every presence pattern of 1..%d items, "
                      "the optional part absent in the last item included): Sequence.to_bytes is the concatenation of the items' octets, "
@@ -5353,6 +5386,11 @@ def w_seq_closure(lab, fams):
                         if back is None or back[0] != "ok" or back[1][1] != len(want[1]) or any(back[1][0].get(k) != x for k, x in v.items()):
                             raise AnalysisError("internal: reference model is not an inverse pair on %r" % (ref,))
                         fam.check("%s: %s.to_bytes() of %s" % (what, ref.name, _short_txt(v, 200)), lab.e_enc(e, v), want)
+                        if n <= 2:
+                            # the value of a sequence field is an iterable of item dicts: a tuple encodes like the list
+                            vt = dict(v, items=tuple(clone_vals(items)))
+                            fam.check("%s: %s.to_bytes() of %s [items given as a tuple]" % (what, ref.name, _short_txt(vt, 200)),
+                                      lab.e_enc(e, vt), want)
                         got = lab.e_dec(e, want[1])
                         fam.check("%s: %s.from_bytes(%r) [= to_bytes() of %s]" % (what, ref.name, want[1], _short_txt(v, 200)), got, back)
                         if got[0] == "ok":
